@@ -245,9 +245,27 @@ class DI:
 			raise TypeError(f'Merging not allowed. not related. self: {self.__class__}, other: {other.__class__}')
 
 		di = self._clone()
+		# マージ対象が登録しているシンボルは、解決済みのインスタンスも含めてマージ対象の内容に置き換える
+		for symbol in other.__injectors:
+			di.__instances.pop(symbol, None)
+
 		di.__instances = {**di.__instances, **other.__instances}
 		di.__injectors = {**di.__injectors, **other.__injectors}
 		return di
+
+	def _binded_paths(self) -> list[str]:
+		"""Returns: ファクトリーが登録済みのシンボルパスリスト"""
+		return [to_fullyname(symbol) for symbol in self.__injectors]
+
+	def _discard(self, symbol_path: str) -> None:
+		"""指定のシンボルパスに該当するファクトリーとインスタンスを破棄
+
+		Args:
+			symbol_path: シンボル型のパス
+		"""
+		for symbol in [symbol for symbol in self.__injectors if to_fullyname(symbol) == symbol_path]:
+			del self.__injectors[symbol]
+			self.__instances.pop(symbol, None)
 
 
 class LazyDI(DI):
@@ -411,5 +429,11 @@ class LazyDI(DI):
 			```
 		"""
 		di = super().combine(other)
+		# マージ対象で遅延登録のみ(未解決)のシンボルは、レシーバー側で解決済みの内容を破棄してマージ対象の定義を優先
+		other_binded_paths = other._binded_paths()
+		for symbol_path in other.__definitions:
+			if symbol_path not in other_binded_paths:
+				di._discard(symbol_path)
+
 		di.__definitions = {**self.__definitions, **other.__definitions}
 		return di
